@@ -572,8 +572,32 @@ def ob_arrivals_considered(ctx, num, key: str, label: str):
                 byp = g.path_avoiding(hid, {g.exit.id}, {wid}, edge_ok=lambda a, b, lab, D=D: not (a == hid and lab != "done") and not (
                     isinstance(lab, tuple) and lab[0] == "cond" and ("truth", D, False) in norm.atoms_true(lab[1])))
                 walked = walked or byp is None
-            ok = every(stores) and walked and not removed and not after and reached
-            why.append(f"`{stmt_text(lp)}` collects into {D}: every arrival stored: {every(stores)}; table walked afterwards (skipped only when empty): {walked}; "
+            # ... and the pipeline of every result joins the same table (a completion makes children ready, a failure makes a retry due): a store
+            # `D[..] = <..>.pipeline` under a loop over the results, reached in every iteration of every loop around it
+            res_p = f.params()[1]
+            res_ok = False
+            for n in own_nodes(f.node):
+                if not (isinstance(n, ast.Assign) and len(n.targets) == 1 and isinstance(n.targets[0], ast.Subscript) and norm.is_name(n.targets[0].value, D)):
+                    continue
+                chain, a_ = [], enclosing(n, (ast.For,), f.node)
+                while a_ is not None:
+                    chain.append(a_)
+                    a_ = enclosing(a_, (ast.For,), f.node)
+                if not chain or not norm.is_name(chain[-1].iter, res_p):
+                    continue
+                vtxt = norm.U(norm.subst(n.value, {k: v for lp_ in chain for k, v in _loop_env(lp_).items()}))
+                if not vtxt.endswith(".pipeline"):
+                    continue
+                tgt, good_chain = g.node_of(n).id, True
+                for lp_ in chain:
+                    h_ = g.node_of(lp_).id
+                    if g.path_avoiding(h_, {h_, g.exit.id}, {tgt}, edge_ok=lambda a, b, lab, h_=h_: not (a == h_ and lab == "done")) is not None:
+                        good_chain = False
+                    tgt = h_
+                res_ok = res_ok or (good_chain and g.dominates(chain[-1], walks[0]) if walks else False)
+            ok = every(stores) and walked and not removed and not after and reached and res_ok
+            why.append(f"`{stmt_text(lp)}` collects into {D}: every arrival stored: {every(stores)}; the pipeline of every result stored too: {res_ok}; "
+                       f"table walked afterwards (skipped only when empty): {walked}; "
                        f"nothing removed or re-bound: {not removed and not after}; reached whenever something arrived: {reached}")
             if ok:
                 good.append(lp)
@@ -582,5 +606,14 @@ def ob_arrivals_considered(ctx, num, key: str, label: str):
             why.append(f"`{stmt_text(lp)}` queues a job per arrival: in every iteration: {every(apps)}; reached whenever something arrived: {reached}")
             if ok:
                 good.append(lp)
-    ctx.ob(num, "K3", f"[{label}] every arriving pipeline is taken up in the round it arrives (none is filtered out before its ready operators are queued)", bool(good), f,
+    ctx.ob(num, "K3", f"[{label}] every arriving pipeline (and the pipeline of every result) is taken up in that round: none is filtered out before its ready operators are queued", bool(good), f,
            (good or loops)[0], construct="intake of arrivals", detail="; ".join(why) or "no loop over the arrivals stores or queues them")
+
+
+def _loop_env(lp: ast.For) -> dict:
+    """single plain assignments at the top of a loop body (name -> expression), for looking through `pipeline = only(r.ops).pipeline`"""
+    env = {}
+    for st in lp.body:
+        if isinstance(st, ast.Assign) and len(st.targets) == 1 and isinstance(st.targets[0], ast.Name):
+            env.setdefault(st.targets[0].id, st.value)
+    return env
